@@ -339,9 +339,74 @@ func opsReachable(blk *ssa.BasicBlock) map[string]bool {
 	return out
 }
 
+// opsForConstant: the store operations (and callbacks) that fn can reach when its
+// discriminant — the non-constant operand of comparisons with constants of the named
+// type typ — has the value val. Comparisons with other constants of that type are decided
+// (== and !=, whichever side the constant is on, switch or if-chain alike); every other
+// branch is explored both ways. Static calls into the state package are followed, with
+// the discriminant known only inside fn itself.
+func opsForConstant(fn *ssa.Function, typ, val string) (map[string]bool, int) {
+	out := map[string]bool{}
+	decided := 0
+	seen := map[*ssa.BasicBlock]bool{}
+	var walk func(b *ssa.BasicBlock)
+	walk = func(b *ssa.BasicBlock) {
+		if seen[b] {
+			return
+		}
+		seen[b] = true
+		for _, in := range b.Instrs {
+			if op, _, ok := storeOp(in); ok {
+				out[op] = true
+			}
+			if ci, ok := in.(ssa.CallInstruction); ok {
+				if isDynamicCall(ci.Common()) {
+					out["callback"] = true
+				}
+				if sc := ci.Common().StaticCallee(); sc != nil && PkgOf(sc) == PkgState && len(sc.Blocks) > 0 {
+					for k := range opsReachable(sc.Blocks[0]) {
+						out[k] = true
+					}
+				}
+			}
+		}
+		if iff, ok := b.Instrs[len(b.Instrs)-1].(*ssa.If); ok && b.Parent() == fn {
+			cv, pol := condStrip(iff.Cond)
+			if bo, ok := cv.(*ssa.BinOp); ok && (bo.Op == token.EQL || bo.Op == token.NEQ) {
+				var k *ssa.Const
+				if kk, ok := bo.Y.(*ssa.Const); ok {
+					k = kk
+				} else if kk, ok := bo.X.(*ssa.Const); ok {
+					k = kk
+				}
+				if k != nil && k.Value != nil && typeName(k.Type()) == typ && k.Value.Kind() == constant.String {
+					eq := constant.StringVal(k.Value) == val
+					res := eq == (bo.Op == token.EQL)
+					if !pol {
+						res = !res
+					}
+					decided++
+					if res {
+						walk(b.Succs[0])
+					} else {
+						walk(b.Succs[1])
+					}
+					return
+				}
+			}
+		}
+		for _, s := range b.Succs {
+			walk(s)
+		}
+	}
+	if len(fn.Blocks) > 0 {
+		walk(fn.Blocks[0])
+	}
+	return out, decided
+}
+
 func checkStateTables(c *Ctx, p *Prog, S *stateRoles, rule string) {
 	ops := constsOfType(p, PkgState, "Operation")
-	cases := casesOn(S.appCh, "Operation")
 	wantOp := map[string]string{"insert": "Set", "update": "Set", "delete": "Delete"}
 	var names []string
 	for v := range ops {
@@ -349,13 +414,12 @@ func checkStateTables(c *Ctx, p *Prog, S *stateRoles, rule string) {
 	}
 	sort.Strings(names)
 	for _, v := range names {
-		blk, ok := cases[v]
 		construct := "operation-table/" + ops[v]
-		if !ok {
-			c.Violate(rule, construct, p.Pos(S.appCh.Pos()), "operation "+v+" has no case in the collection applier: such messages are silently dropped", nil)
+		got, decided := opsForConstant(S.appCh, "Operation", v)
+		if decided == 0 {
+			c.Unresolved(rule, construct, "the collection applier never compares the operation with a constant")
 			continue
 		}
-		got := opsReachable(blk)
 		w := wantOp[v]
 		if w == "" {
 			c.Unresolved(rule, construct, "unknown operation constant "+v+" (no expected effect in the checker's table)")
@@ -365,28 +429,30 @@ func checkStateTables(c *Ctx, p *Prog, S *stateRoles, rule string) {
 		if w == "Delete" {
 			other = "Set"
 		}
-		c.Check(got[w] && !got[other] && !got["Clear"], rule, construct, p.Pos(blk.Instrs[0].Pos()), v+" → Store."+w, fmt.Sprintf("operation %s does not map to exactly Store.%s (reachable store operations: %v)", v, w, keysOf(got)))
+		c.Check(got[w] && !got[other] && !got["Clear"], rule, construct, p.Pos(S.appCh.Pos()), v+" → Store."+w, fmt.Sprintf("operation %s does not map to exactly Store.%s (store operations reachable with that operation: %v)", v, w, keysOf(got)))
+	}
+	// an operation outside the table changes nothing
+	if got, _ := opsForConstant(S.appCh, "Operation", "\x00unknown"); true {
+		c.Check(!got["Set"] && !got["Delete"] && !got["Clear"], rule, "operation-table/unknown-operation", p.Pos(S.appCh.Pos()), "an unknown operation mutates nothing", fmt.Sprintf("an operation outside insert/update/delete mutates the store (%v)", keysOf(got)))
 	}
 	c.Floor(rule, "operation constants", len(ops), 3)
 	ctl := constsOfType(p, PkgState, "Control")
-	ccases := casesOn(S.applyControl, "Control")
 	names = nil
 	for v := range ctl {
 		names = append(names, v)
 	}
 	sort.Strings(names)
 	for _, v := range names {
-		blk, ok := ccases[v]
 		construct := "control-table/" + ctl[v]
-		if !ok {
-			c.Violate(rule, construct, p.Pos(S.applyControl.Pos()), "control "+v+" has no case", nil)
+		got, decided := opsForConstant(S.applyControl, "Control", v)
+		if decided == 0 {
+			c.Unresolved(rule, construct, "the control applier never compares the control value with a constant")
 			continue
 		}
-		got := opsReachable(blk)
 		if v == "reset" {
-			c.Check(got["Clear"] && !got["Set"] && !got["Delete"], rule, construct, p.Pos(blk.Instrs[0].Pos()), "reset → clear", "reset does not clear the collections")
+			c.Check(got["Clear"] && !got["Set"] && !got["Delete"], rule, construct, p.Pos(S.applyControl.Pos()), "reset → clear", "reset does not clear the collections")
 		} else {
-			c.Check(!got["Clear"] && !got["Set"] && !got["Delete"], rule, construct, p.Pos(blk.Instrs[0].Pos()), v+" → no store mutation", "a snapshot marker mutates stored state")
+			c.Check(!got["Clear"] && !got["Set"] && !got["Delete"], rule, construct, p.Pos(S.applyControl.Pos()), v+" → no store mutation", "a snapshot marker mutates stored state")
 		}
 	}
 	c.Floor(rule, "control constants", len(ctl), 3)
@@ -580,7 +646,16 @@ func checkCompositeKey(c *Ctx, p *Prog, S *stateRoles, rule string) {
 // zero value allocated by that call.
 func checkFreshDecodeTargets(c *Ctx, p *Prog, S *stateRoles, rule string) {
 	n := 0
-	for _, f := range []*ssa.Function{S.apply, S.applyChange, S.appCh} {
+	fns := staticReachState(p, S.apply, S)
+	for _, g := range []*ssa.Function{S.applyChange, S.appCh} {
+		fns = append(fns, staticReachState(p, g, S)...)
+	}
+	seenFn := map[*ssa.Function]bool{}
+	for _, f := range fns {
+		if seenFn[f] {
+			continue
+		}
+		seenFn[f] = true
 		ord := 0
 		for _, b := range f.Blocks {
 			for _, in := range b.Instrs {
